@@ -23,7 +23,7 @@ ASSUMPTIONS = [
 ]
 MONITORS = "independent walk of the workspace (bytes, directories, exec bits) after apply; second compare's action lists; onerror recorder; audit-hook log of removals"
 REQUIRED_COUNTERS = [
-    "unavailable_directory_object_cases", "applies", "kind_swap_cases", "nested_dir_deletions", "lazy_targets", "explicit_targets", "delete_off_cases",
+    "implicit_parent_targets", "unavailable_directory_object_cases", "applies", "kind_swap_cases", "nested_dir_deletions", "lazy_targets", "explicit_targets", "delete_off_cases",
     "unavailable_source_cases", "second_compares", "exec_entries_checked", "link/hardlink", "link/symlink", "link/copy",
 ]
 
@@ -79,7 +79,20 @@ def run_shard(ctx):
             tdirs = sorted(indexlab.dirs_of(T))
             lazy_at = (top,) if rng.random() < 0.6 else rng.choice(tdirs)
 
+            # targets whose intermediate directories have no entry of their own (explicit file entries only): only with copies,
+            # where parents are created along with the files; convergence of files and bytes is all that is asserted there
+            implicit_parents = (not lazy) and link == "copy" and rng.random() < 0.3
+            if implicit_parents:
+                Te = set()
+                res.count("implicit_parent_targets")
+
             def target():
+                if implicit_parents:
+                    idx = indexlab.explicit_index(T, (), texec, cache_odb=cache)
+                    for dk in list(indexlab.dirs_of(T)):
+                        if len(dk) > 1:
+                            del idx[dk]
+                    return idx
                 if lazy:
                     indexlab.put_dir_object(cache, T, lazy_at)
                     rest = {k: v for k, v in T.items() if k[: len(lazy_at)] != lazy_at}
@@ -108,7 +121,7 @@ def run_shard(ctx):
             for k in pexec:
                 os.chmod(os.path.join(ws, *k), 0o755)
 
-            cfg = {"lazy": lazy, "lazy_at": "/".join(lazy_at) if lazy else None, "delete": delete, "link": link, "update_meta": update_meta, "state": use_state, "ops": ops[:8],
+            cfg = {"implicit_parents": implicit_parents, "lazy": lazy, "lazy_at": "/".join(lazy_at) if lazy else None, "delete": delete, "link": link, "update_meta": update_meta, "state": use_state, "ops": ops[:8],
                    "swapped": swapped, "prior": sorted("/".join(k) for k in P), "target": sorted("/".join(k) for k in T),
                    "prior_empty_dirs": sorted("/".join(k) for k in Pe), "target_empty_dirs": sorted("/".join(k) for k in Te),
                    "unavailable": len(unavailable)}
@@ -225,7 +238,7 @@ def run_shard(ctx):
                     if not claimed and got.get(k) != v:
                         res.violation("delete-off-removed-path-outside-target", f"{'/'.join(k)} was removed or changed with delete=False",
                                       case=case, detail={**cfg, "removals": [e for e in rec.events if e[0] in ("remove", "rmtree", "rmdir")][:5]})
-            for dk in td:
+            for dk in td if not implicit_parents else ():
                 if dk not in gdirs and not unavailable and not any(b[: len(dk)] == dk for b in blocked):
                     if not any(reported(f) for f in T if f[: len(dk)] == dk) :
                         res.violation("target-directory-missing", f"directory {'/'.join(dk)} of the target was not created", case=case, detail=cfg)
@@ -236,7 +249,7 @@ def run_shard(ctx):
                     res.violation("exec-entry-not-executable", f"{'/'.join(k)} should be executable", case=case, detail=cfg)
 
             # second compare against a freshly built target
-            if delete and not unavailable and apply_exc is None:
+            if delete and not unavailable and apply_exc is None and not implicit_parents:
                 res.count("second_compares")
                 old2 = indexlab.workspace_index(ws)
                 new2 = target()
